@@ -428,6 +428,31 @@ pub fn run(run: &Run) {
             }
         }
     };
+    // call history: a call whose value does not fit (it may return anything or panic) followed by fitting calls on
+    // other rows; rows visited in descending and interleaved order
+    for &(bn, bk) in &[(70u64, 35u64), (100, 50), (68, 34), (80, 40), (1000, 500), (67, 33)] {
+        let _ = guard(|| binom_coeff(bn, bk));
+        for &(n, k) in &[(50usize, 1usize), (50, 25), (67, 33), (10, 3), (1000, 3), (4000, 2), (66, 30), (5, 5), (5, 0)] {
+            judge_binom(n, k);
+        }
+        // a row, the non-fitting call, the same row again
+        for &n in &[50usize, 10, 67, 1000, 30, 2] {
+            judge_binom(n, 2.min(n));
+            let _ = guard(|| binom_coeff(bn, bk));
+            for k in [0usize, 1, 2, 3, n / 2, n - 1, n] {
+                if k <= n {
+                    judge_binom(n, k);
+                }
+            }
+        }
+        run.regime("binom-after-non-fitting-call");
+    }
+    for n in (0..=67).rev() {
+        for k in [0, n / 3, n / 2, n] {
+            judge_binom(n, k);
+            judge_binom(67 - n, (67 - n) / 2);
+        }
+    }
     for n in 0..=67 {
         for k in 0..=n {
             judge_binom(n, k);
